@@ -267,8 +267,24 @@ def element_page(draw):
     return {"element_type": et, "pvoltag": pv, "avoltag": av, "elements": els, "extra_len": draw(st.sampled_from([4, 4, 0, 8, 36]))}
 
 
+@st.composite
+def big_element_page(draw):
+    """one page whose descriptor data exceeds 65535 bytes (the 3-byte BYTE COUNT fields matter):
+    560 descriptors of 120 bytes; descriptors share generated field values except the address."""
+    et = draw(st.integers(1, 4))
+    table = dict(R.ELEM_BASE, **R.ELEM_EXTRA[et])
+    proto = {k: draw(fv(w)) for k, (b_, m, w) in table.items()}
+    tag1, tag2 = draw(b(36)), draw(b(36))
+    n = draw(st.integers(547, 600))
+    els = [dict(proto, element_address=(i * 7 + 1) & 0xFFFF, primary_volume_tag=tag1, alternate_volume_tag=tag2) for i in range(n)]
+    return {"element_type": et, "pvoltag": 1, "avoltag": 1, "elements": els, "extra_len": 36}
+
+
 def smc_formats():
-    s = st.tuples(fv(16), fv(16), st.lists(element_page(), max_size=4))
+    pages = st.one_of(st.lists(element_page(), max_size=4), st.lists(element_page(), max_size=4),
+                      st.lists(element_page(), max_size=4), st.lists(element_page(), max_size=4),
+                      st.tuples(big_element_page(), st.lists(element_page(), max_size=1)).map(lambda t: [t[0]] + t[1]))
+    s = st.tuples(fv(16), fv(16), pages)
 
     def exp(t):
         first, num, pages = t
